@@ -617,8 +617,10 @@ class RatioOfMeans(  # noqa: D101
                     sample_count=x,
                     effect_size=effect_size,
                 )
-            lower_bound = 3
-            upper_bound = _find_boundary(fn, 10)
+            # Each group should have more than one observation for any ratio
+            # (3 and 10 for ratio = 1).
+            lower_bound = 1.5 * max(1 + self.ratio, 1 + 1/self.ratio)
+            upper_bound = _find_boundary(fn, lower_bound * 10 / 3)
 
         return scipy.optimize.brentq(fn, lower_bound, upper_bound, maxiter=MAX_ITER)  # type: ignore
 
